@@ -203,7 +203,7 @@ TWO_LEVEL = {
 }
 
 
-def two_level(st, kit, n_entries, scn):
+def two_level(st, kit, n_entries, scn, cassette_rotation=0):
     """entries -> two cassettes -> device"""
     d = TWO_LEVEL[kit]
     CV, E, C, DV = [gen.class_by_name(d[x]) for x in ("cassette_vector", "entry", "cassette", "device_vector")]
@@ -236,7 +236,11 @@ def two_level(st, kit, n_entries, scn):
         if o.kind != "product":
             st.violation("two-level", "cassette-assembly-fails-" + str(o.exc_name), scn, "product", o.brief())
             return None
-        ce = C(o.record)
+        crec = o.record
+        if cassette_rotation:
+            # a product may be stored at any rotation before it is re-used
+            crec = crec >> (len(crec) // 2 if cassette_rotation == "half" else cassette_rotation)
+        ce = C(crec)
         if not ce.is_valid():
             st.violation("two-level", "cassette-product-rejected-by-next-level-class", scn, d["cassette"], "rejected")
             return None
